@@ -4,6 +4,7 @@ import (
 	"encoding/json"
 	"errors"
 	"fmt"
+	realrand "math/rand"
 	"os"
 	"os/exec"
 	"path/filepath"
@@ -12,6 +13,9 @@ import (
 	"strings"
 	"time"
 
+	"github.com/evolbioinfo/goalign/align"
+	"github.com/evolbioinfo/gotree/acr"
+	"github.com/evolbioinfo/gotree/asr"
 	"github.com/evolbioinfo/gotree/hashmap"
 	"github.com/evolbioinfo/gotree/io/utils"
 	"github.com/evolbioinfo/gotree/mcrt"
@@ -853,7 +857,43 @@ func c11raceMain() {
 			}
 		}
 	}
+	n += c11raceOther()
 	fmt.Printf("\nRACEPASS executions=%d stalls=%d\n", n, stalls)
+}
+
+// c11raceOther: the computations that are sequential today (parsimony reconstructions, consensus, distance matrix) run
+// free under the race detector too, so that a change that makes them concurrent is looked at as well.
+func c11raceOther() int {
+	n := 0
+	for rep := 0; rep < 6; rep++ {
+		realrand.Seed(int64(rep + 1))
+		t, err := tree.RandomYuleBinaryTree(48, rep%2 == 0)
+		if err != nil {
+			continue
+		}
+		a := align.NewAlign(align.NUCLEOTIDS)
+		states := map[string]string{}
+		for _, tip := range t.Tips() {
+			seq := make([]byte, 12)
+			for i := range seq {
+				seq[i] = "ACGTRN"[realrand.Intn(6)]
+			}
+			a.AddSequence(tip.Name(), string(seq), "")
+			states[tip.Name()] = string("xyz"[realrand.Intn(3)])
+		}
+		for _, algo := range []int{acr.ALGO_ACCTRAN, acr.ALGO_DELTRAN, acr.ALGO_DOWNPASS} {
+			t2 := t.Clone()
+			asr.ParsimonyAsr(t2, a, algo, false)
+			t3 := t.Clone()
+			acr.ParsimonyAcr(t3, states, algo, false)
+			n += 2
+		}
+		t.ReinitIndexes()
+		t.ToDistanceMatrix(tree.DISTANCE_METRIC_BRLEN)
+		tree.Consensus(feed([]*tree.Tree{t.Clone(), t.Clone()}), 0.5)
+		n += 2
+	}
+	return n
 }
 
 func init() {
